@@ -2106,3 +2106,126 @@ Section TwoPhases.
         rewrite Hget. cbn [apply_eq_default bind]. reflexivity.
   Qed.
 End TwoPhases.
+
+(* ================================================================== _get_all_fields_by_name *)
+
+(* the fold of _get_all_fields_by_name over the reversed MRO, for any way [F] of describing the member [nm] that
+   class [c] defines: F c nm = snd nm gives the model's [fields_of_mro], F c nm = the object gives the dict the
+   source builds *)
+Definition mro_fold {A} (F : pystr -> pystr * member -> A) (g : genv) (mro : list pystr) : list (pystr * A) :=
+  fold_left (fun acc c => alist_merge acc (map (fun nm => (fst nm, F c nm)) (own_of g c))) (rev mro) [].
+
+Lemma fields_of_mro_fold g mro : fields_of_mro g mro = mro_fold (fun _ nm => snd nm) g mro.
+Proof.
+  unfold fields_of_mro, mro_fold. generalize (@nil (pystr * member)). induction (rev mro) as [|c t IH]; intro acc; [reflexivity|].
+  cbn [fold_left]. rewrite IH. f_equal. unfold update_members, alist_merge.
+  generalize acc. induction (own_of g c) as [|[n m] l IHl]; intro a; [reflexivity|]. cbn [map fold_left fst snd]. apply IHl.
+Qed.
+
+Lemma alist_set_map {A B} (G : A -> B) (l : list (pystr * A)) n v :
+  map (fun p => (fst p, G (snd p))) (alist_set l n v) = alist_set (map (fun p => (fst p, G (snd p))) l) n (G v).
+Proof.
+  induction l as [|[k x] t IH]; [reflexivity|]. cbn [alist_set map fst snd]. destruct (pystr_eqb k n); cbn [map fst snd]; [reflexivity|].
+  f_equal. exact IH.
+Qed.
+
+Lemma mro_fold_map {A B} (G : A -> B) (F : pystr -> pystr * member -> A) g mro :
+  map (fun p => (fst p, G (snd p))) (mro_fold F g mro) = mro_fold (fun c nm => G (F c nm)) g mro.
+Proof.
+  unfold mro_fold. change (@nil (pystr * B)) with (map (fun p : pystr * A => (fst p, G (snd p))) []).
+  generalize (@nil (pystr * A)). induction (rev mro) as [|c t IH]; intro acc; [reflexivity|].
+  cbn [fold_left]. rewrite IH. f_equal. unfold alist_merge.
+  generalize acc. induction (own_of g c) as [|nm l IHl]; intro a; [reflexivity|].
+  cbn [map fold_left fst snd]. rewrite IHl. f_equal. apply alist_set_map.
+Qed.
+
+Lemma find_klass_name g c k : find_klass g c = Some k -> k_name k = c.
+Proof.
+  induction g as [|x t IH]; cbn [find_klass]; [discriminate|]. destruct (pystr_eqb (k_name x) c) eqn:E.
+  - intro H; inversion H; subst. apply pystr_eqb_spec. exact E.
+  - exact IH.
+Qed.
+
+(* the own member names of a class are ordinary attribute names, all different *)
+Definition own_plain (k : klass) : bool :=
+  forallb (fun n => negb (pseudo_attr n) && negb (str_in n special_class_attrs)) (map fst (k_own k)) &&
+  negb (has_dup_str (map fst (k_own k))).
+
+Definition mro_plain (g : genv) (mro : list pystr) : bool :=
+  forallb (fun c => match find_klass g c with Some k => own_plain k | None => true end) mro.
+
+Lemma class_attr_member k ex n :
+  pseudo_attr n = false -> str_in n special_class_attrs = false -> alist_has (k_own k) n = true ->
+  class_attr k ex n = Some (ref (member_obj (k_name k) n)).
+Proof.
+  intros Hp Hs Hh. unfold special_class_attrs in Hs. cbn [str_in existsb] in Hs.
+  repeat (apply orb_false_iff in Hs; destruct Hs as [?H Hs]).
+  unfold class_attr. rewrite H, H0, H1, H2, H3, H4, Hp, Hh. reflexivity.
+Qed.
+
+Lemma dict_update_skeys a b :
+  dv_dict_update (PDict (skeys a)) (PDict (skeys b)) = Ok (PDict (skeys (alist_merge a b))).
+Proof. unfold dv_dict_update. apply dict_merge_skeys. Qed.
+
+Lemma filter_rev {A} (p : A -> bool) l : filter p (rev l) = rev (filter p l).
+Proof.
+  induction l as [|x t IH]; [reflexivity|]. cbn [rev filter]. rewrite filter_app, IH. cbn [filter].
+  destruct (p x); cbn [rev]; [reflexivity|apply app_nil_r].
+Qed.
+
+Lemma filter_all {A} (p : A -> bool) l : forallb p l = true -> filter p l = l.
+Proof.
+  induction l as [|x t IH]; cbn [forallb filter]; [reflexivity|]. intro H.
+  apply andb_true_iff in H as [H1 H2]. rewrite H1. f_equal. auto.
+Qed.
+
+(* the member objects of the classes along the MRO, later classes overriding: name -> the object *)
+Definition v_fields_of_mro (g : genv) (mro : list pystr) : list (pystr * pyval) :=
+  mro_fold (fun c nm => ref (member_obj c (fst nm))) g mro.
+
+Theorem get_all_fields_by_name_src so X gd g extra c kc :
+  find_klass g c = Some kc -> mro_plain g (k_mro kc) = true ->
+  DefineSrc.get_all_fields_by_name so X (genv_heap gd g extra) (ref c) =
+  Ok (PDict (skeys (v_fields_of_mro g (k_mro kc)))).
+Proof.
+  intros Hk Hpl. unfold DefineSrc.get_all_fields_by_name. cbv zeta.
+  rewrite (heap_mro gd g extra c kc Hk). cbn [bind]. rewrite deref_list. cbn [dv_iter bind].
+  set (isstruct := fun x => match find_klass g x with Some k => k_is_struct k | None => false end).
+  rewrite (comp_refs _ isstruct).
+  2:{ intros b _. rewrite heap_isinstance_struct. cbn [bind]. unfold isstruct. destruct (find_klass g b) as [k|]; [destruct (k_is_struct k)|]; reflexivity. }
+  cbn [bind]. rewrite deref_list. cbn [dv_reversed bind]. rewrite deref_list. cbn [dv_iter bind].
+  unfold v_refs. rewrite <- map_rev. fold (v_refs (rev (filter isstruct (k_mro kc)))). rewrite <- filter_rev.
+  unfold v_fields_of_mro, mro_fold.
+  assert (Hpl' : forall x, In x (rev (k_mro kc)) -> match find_klass g x with Some k => own_plain k = true | None => True end).
+  { intros x Hx. apply in_rev in Hx. unfold mro_plain in Hpl. rewrite forallb_forall in Hpl. specialize (Hpl x Hx).
+    destruct (find_klass g x); [exact Hpl|exact I]. }
+  change (PDict []) with (PDict (skeys [])). generalize (@nil (pystr * pyval)).
+  induction (rev (k_mro kc)) as [|x t IH]; intro acc; [reflexivity|].
+  assert (Ht : forall y, In y t -> match find_klass g y with Some k => own_plain k = true | None => True end)
+    by (intros y Hy; apply Hpl'; right; exact Hy).
+  specialize (Hpl' x (or_introl eq_refl)). cbn [filter fold_left].
+  unfold isstruct at 1.
+  destruct (find_klass g x) as [kx|] eqn:Hkx.
+  2:{ replace (own_of g x) with (@nil (pystr * member)) by (unfold own_of; rewrite Hkx; reflexivity).
+      cbn [map]. unfold alist_merge at 1. cbn [fold_left]. apply IH. exact Ht. }
+  destruct (k_is_struct kx) eqn:Es.
+  2:{ replace (own_of g x) with (@nil (pystr * member)) by (unfold own_of; rewrite Hkx, Es; reflexivity).
+      cbn [map]. unfold alist_merge at 1. cbn [fold_left]. apply IH. exact Ht. }
+  replace (own_of g x) with (k_own kx) by (unfold own_of; rewrite Hkx, Es; reflexivity).
+  cbn [v_refs map]. fold (v_refs (filter isstruct t)). unfold dv_foldM at 1. cbn [py_foldM]. fold (@dv_foldM pyval).
+  cbn [bind]. rewrite heap_isinstance_struct, Hkx, Es. cbn [bind].
+  unfold own_plain in Hpl'. apply andb_true_iff in Hpl' as [Hnames Hnd]. apply negb_true_iff in Hnd. apply has_dup_false_NoDup in Hnd.
+  assert (Ef : dv_getattr_def (genv_heap gd g extra) (ref x) (s2p "_fields") (PList []) = Ok (v_names (map fst (k_own kx)))).
+  { unfold ref. cbn [dv_getattr_def obj_getattr_def]. rewrite pystr_eqb_refl. unfold genv_heap. rewrite Hkx. reflexivity. }
+  rewrite Ef. cbn [bind]. unfold v_names at 1. rewrite deref_list. cbn [dv_iter bind]. fold (v_strs (map fst (k_own kx))).
+  rewrite (comp_strs _ (fun _ => true) (fun n => v_item (n, ref (member_obj x n)))).
+  2:{ intros n Hn. unfold dv_getattr_dyn. unfold ref at 1. cbn [dv_getattr obj_getattr]. rewrite pystr_eqb_refl.
+      unfold genv_heap. rewrite Hkx. rewrite forallb_forall in Hnames. specialize (Hnames n Hn).
+      apply andb_true_iff in Hnames as [Hp Hs]. apply negb_true_iff in Hp, Hs.
+      rewrite (class_attr_member kx (extra x) n Hp Hs) by (apply alist_has_In; exact Hn).
+      rewrite (find_klass_name g x kx Hkx). reflexivity. }
+  cbn [bind]. rewrite (filter_all _ (map fst (k_own kx))) by (apply forallb_forall; reflexivity).
+  rewrite map_map. rewrite <- (map_map (fun nm : pystr * member => (fst nm, ref (member_obj x (fst nm)))) v_item).
+  rewrite dict_of_items by (rewrite map_map; cbn [fst]; exact Hnd). cbn [bind].
+  rewrite dict_update_skeys. cbn [bind]. apply IH. exact Ht.
+Qed.
